@@ -527,6 +527,7 @@ def job_runner_step(ctx, jr, n, pid='C03', halting=False, only=None):
     env = T([Opaque('out'), Opaque('err'), e.alloc(st, False)], 'types::env::Env')
     runtime = T([some(instrs), lab, context, env], 'types::runtime::Runtime')
     fr = induct.capture(e, 'core', 'runner::run_instructions', [runtime, L, False], st)
+    fr.require(['runtime', 'line', 'state'])
     ER = ctx.types.enums['runner::EndReason']
     obs = [(fr.st.g, zand(zeq(fr.get(fr.st, 'line'), L), zeq(fr.get(fr.st, 'end_reason').d, ER.index('ReachedEnd'))), 'entry: the run starts at the given instruction, end reason "reached end"')]
     loads.clear()
@@ -733,6 +734,7 @@ def job_create_runtime_lemma(ctx, jr, n, pid='C03'):
     context = T([M([]), M([]), T([M([]), M([])], 'types::command::Commands')], 'types::runtime::Context')
     env = some(T([Opaque('out'), Opaque('err'), e.alloc(st, False)], 'types::env::Env'))
     fr = induct.capture(e, 'core', 'runner::create_runtime', [instrs, context, env], st)
+    fr.require(['runtime', 'line', 'iter'])
     it0 = fr.get(fr.st, 'iter'); rt0 = fr.get(fr.st, 'runtime')
     obs = [(fr.st.g, zand(zeq(fr.get(fr.st, 'line'), 0), zeq(it0.f[1], 0), map_eq(e, fr.st, rt0.f[1], M([]))), 'entry: empty label table, position 0')]
     k = e.fresh_int('k', 0, n); e.assume(k <= nlen)
